@@ -25,61 +25,67 @@ VARIABLES l, silent,
           dropq,     \* handlers that are dropping their pending sink
           errq,      \* answers decided but not yet handed to their connection's queue: set of [c, m]
           acq,       \* subscribe calls whose permit was taken (rpc.rs:107-132) while the handler has not logged its start yet
+          stoppedC,  \* connections for which `stopped()` has resolved
           dropw      \* [SubOps -> Nat] sinks whose drop was announced (the log line precedes the drop) and has not taken effect yet
-tvars == <<vars, l, silent, asked, accw, sendw, sendr, unsubq, closing, recvd, retq, rejq, dropq, errq, acq, dropw>>
-aux == <<asked, accw, sendw, sendr, unsubq, closing, recvd, retq, rejq, dropq, errq, acq, dropw>>
+tvars == <<vars, l, silent, asked, accw, sendw, sendr, unsubq, closing, recvd, retq, rejq, dropq, errq, acq, dropw, stoppedC>>
+aux == <<asked, accw, sendw, sendr, unsubq, closing, recvd, retq, rejq, dropq, errq, acq, dropw, stoppedC>>
 
 Ev(name) == l <= Len(Rec) /\ Rec[l].ev = name /\ l' = l + 1 /\ silent' = 0
 E == Rec[l]
 
 TInit == /\ Init /\ l = 1 /\ silent = 0 /\ asked = {} /\ accw = [k \in SubOps |-> "no"] /\ sendw = [k \in SubOps |-> "no"]
-         /\ sendr = [k \in SubOps |-> "none"] /\ unsubq = <<>> /\ closing = {} /\ recvd = [c \in Conns |-> 0] /\ retq = {} /\ rejq = {} /\ dropq = {} /\ errq = {} /\ acq = {} /\ dropw = [k \in SubOps |-> 0]
+         /\ sendr = [k \in SubOps |-> "none"] /\ unsubq = <<>> /\ closing = {} /\ recvd = [c \in Conns |-> 0] /\ retq = {} /\ rejq = {} /\ dropq = {} /\ errq = {} /\ acq = {} /\ dropw = [k \in SubOps |-> 0] /\ stoppedC = {}
          /\ TLCSet(1, 0)
 
 T_Reset == /\ Ev("Reset")
            /\ cap' = E.cap /\ permits' = [c \in Conns |-> E.cap] /\ sub' = [k \in SubOps |-> NoSub] /\ table' = {}
            /\ open' = [c \in Conns |-> TRUE] /\ queue' = [c \in Conns |-> <<>>] /\ wire' = [c \in Conns |-> <<>>] /\ path' = <<>>
            /\ asked' = {} /\ accw' = [k \in SubOps |-> "no"] /\ sendw' = [k \in SubOps |-> "no"] /\ sendr' = [k \in SubOps |-> "none"]
-           /\ unsubq' = <<>> /\ closing' = {} /\ recvd' = [c \in Conns |-> 0] /\ retq' = {} /\ rejq' = {} /\ dropq' = {} /\ errq' = {} /\ acq' = {} /\ dropw' = [k \in SubOps |-> 0]
+           /\ unsubq' = <<>> /\ closing' = {} /\ recvd' = [c \in Conns |-> 0] /\ retq' = {} /\ rejq' = {} /\ dropq' = {} /\ errq' = {} /\ acq' = {} /\ dropw' = [k \in SubOps |-> 0] /\ stoppedC' = {}
 
 Stutter == UNCHANGED vars
-T_SendSub == Ev("SendSub") /\ asked' = asked \cup {E.k} /\ Stutter /\ UNCHANGED <<accw, sendw, sendr, unsubq, closing, recvd, retq, rejq, dropq, errq, acq, dropw>>
-T_SendUnsub == Ev("SendUnsub") /\ unsubq' = Append(unsubq, <<E.c, E.k>>) /\ Stutter /\ UNCHANGED <<asked, accw, sendw, sendr, closing, recvd, retq, rejq, dropq, errq, acq, dropw>>
-T_PeerClose == (Ev("PeerClose") \/ Ev("Stop")) /\ closing' = closing \cup {E.c} /\ Stutter /\ UNCHANGED <<asked, accw, sendw, sendr, unsubq, recvd, retq, rejq, dropq, errq, acq, dropw>>
+T_SendSub == Ev("SendSub") /\ asked' = asked \cup {E.k} /\ Stutter /\ UNCHANGED <<accw, sendw, sendr, unsubq, closing, recvd, retq, rejq, dropq, errq, acq, dropw, stoppedC>>
+T_SendUnsub == Ev("SendUnsub") /\ unsubq' = Append(unsubq, <<E.c, E.k>>) /\ Stutter /\ UNCHANGED <<asked, accw, sendw, sendr, closing, recvd, retq, rejq, dropq, errq, acq, dropw, stoppedC>>
+T_PeerClose == (Ev("PeerClose") \/ Ev("Stop")) /\ closing' = closing \cup {E.c} /\ Stutter /\ UNCHANGED <<asked, accw, sendw, sendr, unsubq, recvd, retq, rejq, dropq, errq, acq, dropw, stoppedC>>
 
 (* the handler of k logs its start.  Its permit was taken before, in the middleware (rpc.rs:107-132), possibly a while ago: *)
 (* another subscribe on the connection can be refused in between (S_Acquire below).                                         *)
 T_HStart == /\ Ev("HStart") /\ E.k \in asked
             /\ \/ /\ E.k \in acq /\ Stutter /\ acq' = acq \ {E.k}
                \/ /\ E.k \notin acq /\ Subscribe(E.k) /\ sub'[E.k].st = "pending" /\ UNCHANGED acq
-            /\ UNCHANGED <<asked, accw, sendw, sendr, unsubq, closing, recvd, retq, rejq, dropq, errq, dropw>>
+            /\ UNCHANGED <<asked, accw, sendw, sendr, unsubq, closing, recvd, retq, rejq, dropq, errq, dropw, stoppedC>>
 
 T_HAcceptStart == Ev("HAcceptStart") /\ accw[E.k] = "no" /\ accw' = [accw EXCEPT ![E.k] = "open"] /\ Stutter
-                  /\ UNCHANGED <<asked, sendw, sendr, unsubq, closing, recvd, retq, rejq, dropq, errq, acq, dropw>>
+                  /\ UNCHANGED <<asked, sendw, sendr, unsubq, closing, recvd, retq, rejq, dropq, errq, acq, dropw, stoppedC>>
 T_HAcceptEnd == /\ Ev("HAcceptEnd") /\ accw[E.k] = "done" /\ accw' = [accw EXCEPT ![E.k] = "closed"] /\ Stutter
                 /\ (E.ok <=> sub[E.k].st = "accepted")
-                /\ UNCHANGED <<asked, sendw, sendr, unsubq, closing, recvd, retq, rejq, dropq, errq, acq, dropw>>
+                /\ UNCHANGED <<asked, sendw, sendr, unsubq, closing, recvd, retq, rejq, dropq, errq, acq, dropw, stoppedC>>
 T_HReject == Ev("HReject") /\ sub[E.k].st = "pending" /\ E.k \notin rejq /\ rejq' = rejq \cup {E.k} /\ Stutter
-             /\ UNCHANGED <<asked, accw, sendw, sendr, unsubq, closing, recvd, retq, dropq, errq, acq, dropw>>
+             /\ UNCHANGED <<asked, accw, sendw, sendr, unsubq, closing, recvd, retq, dropq, errq, acq, dropw, stoppedC>>
 T_HDropPending == Ev("HDropPending") /\ sub[E.k].st = "pending" /\ dropq' = dropq \cup {E.k} /\ Stutter
-                  /\ UNCHANGED <<asked, accw, sendw, sendr, unsubq, closing, recvd, retq, rejq, errq, acq, dropw>>
+                  /\ UNCHANGED <<asked, accw, sendw, sendr, unsubq, closing, recvd, retq, rejq, errq, acq, dropw, stoppedC>>
 
 T_HSendStart == Ev("HSendStart") /\ sendw[E.k] \in {"no"} /\ sendw' = [sendw EXCEPT ![E.k] = "open"] /\ Stutter
-                /\ UNCHANGED <<asked, accw, sendr, unsubq, closing, recvd, retq, rejq, dropq, errq, acq, dropw>>
+                /\ UNCHANGED <<asked, accw, sendr, unsubq, closing, recvd, retq, rejq, dropq, errq, acq, dropw, stoppedC>>
 T_HSendEnd == /\ Ev("HSendEnd") /\ sendw[E.k] = "done" /\ sendw' = [sendw EXCEPT ![E.k] = "no"] /\ Stutter
               /\ sendr[E.k] = (IF E.ok THEN "ok" ELSE "err")
-              /\ UNCHANGED <<asked, accw, sendr, unsubq, closing, recvd, retq, rejq, dropq, errq, acq, dropw>>
+              /\ UNCHANGED <<asked, accw, sendr, unsubq, closing, recvd, retq, rejq, dropq, errq, acq, dropw, stoppedC>>
 T_HClone == Ev("HClone") /\ SinkClone(E.k) /\ UNCHANGED aux
 (* the harness logs a sink drop BEFORE it drops (afterwards would be too late: the table may change at once); the effect -  *)
 (* entry removed, permit back - follows as a silent step                                                                 *)
 T_HDropSink == /\ Ev("HDropSink") /\ Stutter /\ dropw' = [dropw EXCEPT ![E.k] = @ + 1]
-               /\ UNCHANGED <<asked, accw, sendw, sendr, unsubq, closing, recvd, retq, rejq, dropq, errq, acq>>
+               /\ UNCHANGED <<asked, accw, sendw, sendr, unsubq, closing, recvd, retq, rejq, dropq, errq, acq, stoppedC>>
 (* is_closed is a racy read: it may lag behind a close that is in flight, but it may never report closed when nothing closed it *)
+(* `stopped()` of the connection's stop handle has resolved: the connection is over *)
+T_ConnStopped == /\ Ev("ConnStopped") /\ Stutter /\ ~open[E.c] /\ stoppedC' = stoppedC \cup {E.c}
+                 /\ UNCHANGED <<asked, accw, sendw, sendr, unsubq, closing, recvd, retq, rejq, dropq, errq, acq, dropw>>
+(* a send that was not refused as closed although the connection has been reported stopped: never explainable *)
 T_HIsClosed == /\ Ev("HIsClosed") /\ Stutter /\ UNCHANGED aux
+               /\ (ConnOf[E.k] \in stoppedC => E.b)         \* once `stopped` has resolved the sink must say closed - no lag allowed any more
                /\ (E.b => Closed(E.k) \/ ConnOf[E.k] \in closing \/ \E i \in 1..Len(unsubq) : unsubq[i][2] = E.k)
                /\ (~E.b => ~Closed(E.k) \/ TRUE)
 T_HReturn == /\ Ev("HReturn") /\ HandlerReturnNoEnq(E.k) /\ retq' = IF E.closing THEN retq \cup {E.k} ELSE retq
-             /\ UNCHANGED <<asked, accw, sendw, sendr, unsubq, closing, recvd, rejq, dropq, errq, acq, dropw>>
+             /\ UNCHANGED <<asked, accw, sendw, sendr, unsubq, closing, recvd, rejq, dropq, errq, acq, dropw, stoppedC>>
 
 (* a frame arrives at the peer: it is the next one the writer put on that connection's wire *)
 FrameMatches(w, f) ==
@@ -92,7 +98,7 @@ FrameMatches(w, f) ==
 T_Recv == /\ Ev("Recv") /\ Stutter
           /\ recvd[E.c] < Len(wire[E.c]) /\ FrameMatches(wire[E.c][recvd[E.c] + 1], E.f)
           /\ recvd' = [recvd EXCEPT ![E.c] = @ + 1]
-          /\ UNCHANGED <<asked, accw, sendw, sendr, unsubq, closing, retq, rejq, dropq, errq, acq, dropw>>
+          /\ UNCHANGED <<asked, accw, sendw, sendr, unsubq, closing, retq, rejq, dropq, errq, acq, dropw, stoppedC>>
 (* end of stream at the peer: everything the writer sent has been received *)
 T_Eof == Ev("Eof") /\ Stutter /\ ~open[E.c] /\ recvd[E.c] = Len(wire[E.c]) /\ UNCHANGED aux
 T_EofPeerClosed == Ev("EofPeerClosed") /\ Stutter /\ UNCHANGED aux     \* the peer hung up itself: it may not have read everything
@@ -101,44 +107,44 @@ T_End == Ev("End") /\ Stutter /\ UNCHANGED aux /\ \A k \in SubOps : sendw[k] = "
 (* ---- silent steps ---- *)
 RemoveAt(s, i) == [j \in 1..(Len(s) - 1) |-> IF j < i THEN s[j] ELSE s[j + 1]]
 S_Acquire == \E k \in asked \ acq : /\ Subscribe(k) /\ sub'[k].st = "pending" /\ acq' = acq \cup {k}
-                                    /\ UNCHANGED <<asked, accw, sendw, sendr, unsubq, closing, recvd, retq, rejq, dropq, errq, dropw>>
+                                    /\ UNCHANGED <<asked, accw, sendw, sendr, unsubq, closing, recvd, retq, rejq, dropq, errq, dropw, stoppedC>>
 S_SinkDrop == \E k \in SubOps : /\ dropw[k] > 0 /\ SinkDrop(k) /\ dropw' = [dropw EXCEPT ![k] = @ - 1]
-                                /\ UNCHANGED <<asked, accw, sendw, sendr, unsubq, closing, recvd, retq, rejq, dropq, errq, acq>>
+                                /\ UNCHANGED <<asked, accw, sendw, sendr, unsubq, closing, recvd, retq, rejq, dropq, errq, acq, stoppedC>>
 S_Refuse == \E k \in asked : /\ SubscribeRefuseNoEnq(k)
                               /\ errq' = errq \cup {[c |-> ConnOf[k], m |-> [t |-> "err", k |-> k, code |-> -32006]]}
-                              /\ UNCHANGED <<asked, accw, sendw, sendr, unsubq, closing, recvd, retq, rejq, dropq, acq, dropw>>
+                              /\ UNCHANGED <<asked, accw, sendw, sendr, unsubq, closing, recvd, retq, rejq, dropq, acq, dropw, stoppedC>>
 S_Accept == \E k \in SubOps : /\ accw[k] = "open" /\ Accept(k) /\ accw' = [accw EXCEPT ![k] = "done"]
-                              /\ UNCHANGED <<asked, sendw, sendr, unsubq, closing, recvd, retq, rejq, dropq, errq, acq, dropw>>
+                              /\ UNCHANGED <<asked, sendw, sendr, unsubq, closing, recvd, retq, rejq, dropq, errq, acq, dropw, stoppedC>>
 S_AcceptInsert == \E k \in SubOps : AcceptInsert(k) /\ UNCHANGED aux
 S_SendCheck == \E k \in SubOps : /\ sendw[k] = "open" /\ SendCheck(k)
                                  /\ IF sub'[k].chk = "passed" THEN sendw' = [sendw EXCEPT ![k] = "checked"] /\ UNCHANGED sendr
                                     ELSE sendw' = [sendw EXCEPT ![k] = "done"] /\ sendr' = [sendr EXCEPT ![k] = "err"]
-                                 /\ UNCHANGED <<asked, accw, unsubq, closing, recvd, retq, rejq, dropq, errq, acq, dropw>>
+                                 /\ UNCHANGED <<asked, accw, unsubq, closing, recvd, retq, rejq, dropq, errq, acq, dropw, stoppedC>>
 S_SendEnq == \E k \in SubOps : /\ sendw[k] = "checked" /\ SendEnqueue(k) /\ sendw' = [sendw EXCEPT ![k] = "done"]
                                /\ sendr' = [sendr EXCEPT ![k] = path'[Len(path')].res]
-                               /\ UNCHANGED <<asked, accw, unsubq, closing, recvd, retq, rejq, dropq, errq, acq, dropw>>
+                               /\ UNCHANGED <<asked, accw, unsubq, closing, recvd, retq, rejq, dropq, errq, acq, dropw, stoppedC>>
 S_Unsub == \E i \in 1..Len(unsubq) :
              LET c == unsubq[i][1]  k == unsubq[i][2]  hit == k \in table /\ ConnOf[k] = c IN
              /\ UnsubNoEnq(c, k) /\ unsubq' = RemoveAt(unsubq, i)
              /\ errq' = errq \cup {[c |-> c, m |-> [t |-> "unsubResp", k |-> k, v |-> hit]]}
-             /\ UNCHANGED <<asked, accw, sendw, sendr, closing, recvd, retq, rejq, dropq, acq, dropw>>
-S_ConnClose == \E c \in closing : ConnCloseKeepQueue(c) /\ closing' = closing \ {c} /\ UNCHANGED <<asked, accw, sendw, sendr, unsubq, recvd, retq, rejq, dropq, errq, acq, dropw>>
+             /\ UNCHANGED <<asked, accw, sendw, sendr, closing, recvd, retq, rejq, dropq, acq, dropw, stoppedC>>
+S_ConnClose == \E c \in closing : ConnCloseKeepQueue(c) /\ closing' = closing \ {c} /\ UNCHANGED <<asked, accw, sendw, sendr, unsubq, recvd, retq, rejq, dropq, errq, acq, dropw, stoppedC>>
 S_Writer == \E c \in Conns : WriterSend(c) /\ UNCHANGED aux
-S_CloseNotif == \E k \in retq : /\ CloseEnqueue(k) /\ retq' = retq \ {k} /\ UNCHANGED <<asked, accw, sendw, sendr, unsubq, closing, recvd, rejq, dropq, errq, acq, dropw>>
+S_CloseNotif == \E k \in retq : /\ CloseEnqueue(k) /\ retq' = retq \ {k} /\ UNCHANGED <<asked, accw, sendw, sendr, unsubq, closing, recvd, rejq, dropq, errq, acq, dropw, stoppedC>>
 S_Reject == \E k \in rejq : RejectEnqueue(k) /\ UNCHANGED aux
-S_RejectRelease == \E k \in rejq : RejectRelease(k) /\ rejq' = rejq \ {k} /\ UNCHANGED <<asked, accw, sendw, sendr, unsubq, closing, recvd, retq, dropq, errq, acq, dropw>>
+S_RejectRelease == \E k \in rejq : RejectRelease(k) /\ rejq' = rejq \ {k} /\ UNCHANGED <<asked, accw, sendw, sendr, unsubq, closing, recvd, retq, dropq, errq, acq, dropw, stoppedC>>
 S_DropPending == \E k \in dropq : DropPendingNoEnq(k) /\ dropq' = dropq \ {k}
                                    /\ errq' = errq \cup {[c |-> ConnOf[k], m |-> [t |-> "err", k |-> k, code |-> -32603]]}
-                                   /\ UNCHANGED <<asked, accw, sendw, sendr, unsubq, closing, recvd, retq, rejq, acq, dropw>>
-S_ErrEnq == \E r \in errq : ReplyEnqueue(r.c, r.m) /\ errq' = errq \ {r} /\ UNCHANGED <<asked, accw, sendw, sendr, unsubq, closing, recvd, retq, rejq, dropq, acq, dropw>>
+                                   /\ UNCHANGED <<asked, accw, sendw, sendr, unsubq, closing, recvd, retq, rejq, acq, dropw, stoppedC>>
+S_ErrEnq == \E r \in errq : ReplyEnqueue(r.c, r.m) /\ errq' = errq \ {r} /\ UNCHANGED <<asked, accw, sendw, sendr, unsubq, closing, recvd, retq, rejq, dropq, acq, dropw, stoppedC>>
 Silent == /\ silent < MaxSilent /\ silent' = silent + 1 /\ l' = l /\ l <= Len(Rec)
           /\ (S_Acquire \/ S_SinkDrop \/ S_Refuse \/ S_Accept \/ S_AcceptInsert \/ S_SendCheck \/ S_SendEnq \/ S_Unsub \/ S_ConnClose \/ S_Writer \/ S_CloseNotif \/ S_Reject \/ S_RejectRelease \/ S_DropPending \/ S_ErrEnq)
 
 TNext == T_Reset \/ T_SendSub \/ T_SendUnsub \/ T_PeerClose \/ T_HStart \/ T_HAcceptStart \/ T_HAcceptEnd \/ T_HReject \/ T_HDropPending
-         \/ T_HSendStart \/ T_HSendEnd \/ T_HClone \/ T_HDropSink \/ T_HIsClosed \/ T_HReturn \/ T_Recv \/ T_Eof \/ T_EofPeerClosed \/ T_End \/ Silent
+         \/ T_ConnStopped \/ T_HSendStart \/ T_HSendEnd \/ T_HClone \/ T_HDropSink \/ T_HIsClosed \/ T_HReturn \/ T_Recv \/ T_Eof \/ T_EofPeerClosed \/ T_End \/ Silent
 
 Progress == TLCSet(1, IF l > TLCGet(1) THEN l ELSE TLCGet(1))
 Accepted == IF TLCGet(1) = Len(Rec) + 1 THEN TRUE
             ELSE /\ PrintT(<<"UNMATCHED", TLCGet(1), ToJson(Rec[TLCGet(1)])>>) /\ FALSE
-TView == <<View, l, silent, asked, accw, sendw, sendr, unsubq, closing, recvd, retq, rejq, dropq, errq, acq, dropw>>
+TView == <<View, l, silent, asked, accw, sendw, sendr, unsubq, closing, recvd, retq, rejq, dropq, errq, acq, dropw, stoppedC>>
 =============================================================================
